@@ -341,6 +341,30 @@ func checkFastCodec(c FCCase, cv *cov) (v *evid.Violation) {
 			v = evid.Failf("%s.FastRead of a reference-built image (order %v, %d unknown fields): %s; image %s", name, perm, nUnknown, d, hx(img))
 			return
 		}
+		// the same image read into a receiver that already holds other content (object reuse): fields
+		// present in the image replace the old content completely, in particular the map
+		old := fcModel{s: [3]string{"old-1", "old-2", "old-3"}, i32: 424242}
+		if c.Kind != 2 {
+			old.extra = map[string]string{}
+			for i := 0; i < len(m.extra)+3; i++ {
+				old.extra[fmt.Sprintf("stale-key-%d", i)] = "stale"
+			}
+		}
+		z := newFC(c.Kind, &old)
+		n, err = z.FastRead(full)
+		if err != nil || n != len(img) {
+			v = evid.Failf("%s.FastRead into a reused receiver returned (%d,%v), the struct is %d bytes", name, n, err, len(img))
+			return
+		}
+		want := m
+		if c.Kind != 2 && m.extra == nil {
+			want.extra = old.extra // field absent from the image: the receiver keeps what it had
+		}
+		got = readBack(c.Kind, z)
+		if d := eqModel(c.Kind, &got, &want); d != "" {
+			v = evid.Failf("%s.FastRead into a receiver that already held other content does not reproduce the written value: %s", name, d)
+			return
+		}
 	}
 	if p, st := evid.Safe(body); p != nil {
 		return &evid.Violation{Msg: fmt.Sprintf("%s: panic: %v", name, p), Stack: st}
@@ -390,8 +414,15 @@ func genFCCase(t *rapid.T) FCCase {
 	c.I32 = rapid.OneOf(rapid.Int32(), rapid.SampledFrom([]int32{0, 1, -1, 6, 0x7fffffff, -0x80000000})).Draw(t, "i32")
 	c.ExtraNil = rapid.Bool().Draw(t, "extraNil")
 	if !c.ExtraNil {
-		n := rapid.SampledFrom([]int{0, 0, 1, 2, 3, 40}).Draw(t, "nextra")
+		n := rapid.SampledFrom([]int{0, 0, 0, 1, 1, 2, 2, 3, 3, 40, 40, 255, 256, 257, 1023, 1024, 1025, 1500}).Draw(t, "nextra")
 		for i := 0; i < n; i++ {
+			if n > 40 { // many entries: distinct short keys, short values
+				c.Extra = append(c.Extra, KVP{K: PStr{L: 2 + i%7 + i/251*0, S: byte(i)}, V: PStr{L: i % 3, S: byte(i >> 8)}})
+				if i >= 251 {
+					c.Extra[i].K = PStr{L: 9 + i/251, S: byte(i)}
+				}
+				continue
+			}
 			c.Extra = append(c.Extra, KVP{K: PStr{L: rapid.IntRange(0, 12).Draw(t, "ekl"), S: byte(i*5 + 1)}, V: genFCStr(t, "ev")})
 		}
 	}
